@@ -251,10 +251,10 @@ package bgp
 
 //@ func (*IPAddrPrefixDefault).decodePrefix
 //@   modifies r.*
-//@   ensures err != nil ==> freshMsgErr(err)
+//@   ensures err != nil ==> freshMsgErr(err) && errClass(err) == ERROR_HANDLING_SESSION_RESET
 //@ func (*IPAddrPrefix).decodeFromBytes
 //@   modifies r.*
-//@   ensures err != nil ==> freshMsgErr(err)
+//@   ensures err != nil ==> freshMsgErr(err) && errClass(err) == ERROR_HANDLING_SESSION_RESET
 //@ func (*IPAddrPrefix).Len
 //@   inline
 
@@ -368,7 +368,7 @@ package bgp
 //@ func GetPathAttribute
 //@   modifies nothing
 //@   ensures result1 == nil ==> result0 != nil && fresh(result0)
-//@   ensures result1 != nil ==> freshMsgErr(result1)
+//@   ensures result1 != nil ==> freshMsgErr(result1) && errClass(result1) == ERROR_HANDLING_SESSION_RESET
 //@ func getBGPUpdateAttributes
 //@   modifies nothing
 //@   ensures result != nil
@@ -400,14 +400,37 @@ package bgp
 //@   loop 0 decreases int(routelen)
 //@   loop 1 invariant len(data) >= int(pathlen) && len(data) <= 65535
 //@   loop 1 invariant strongestError == nil || isMsgErr(strongestError)
+//@   loop 1 invariant errClass(strongestError) <= ERROR_HANDLING_SESSION_RESET
 // from C06: "gets the strongest reaction any of its errors calls for": per attribute, the error raised for it
 // (if any) is accounted for, and the remembered class never decreases
 //@   loop 1 step e != nil ==> errClass(strongestError) >= errClass(e)
 //@   loop 1 step errClass(strongestError) >= header(errClass(strongestError))
+// ... and whatever the function returns, from whichever exit, is at least as strong as everything remembered so
+// far and as the error just raised for the current attribute
+//@   at-return requires errClass(ret0) >= errClass(strongestError)
+//@   at-return requires e != nil ==> errClass(ret0) >= errClass(e)
 //@   loop 1 decreases int(pathlen)
 //@   loop 2 invariant restlen <= len(data)
+//@   loop 2 invariant (strongestError == nil || isMsgErr(strongestError)) && errClass(strongestError) <= ERROR_HANDLING_SESSION_RESET
 //@   loop 2 decreases restlen
 
+// from C06: "No route is ever installed ... lacking a mandatory attribute": unless the UPDATE already calls for a
+// session reset, validation never returns without having run the mandatory-attribute check when the message
+// announces IPv4 unicast prefixes, and its verdict is the error it remembered (nil exactly when it says "valid")
+//@ props C06
+//@ func ValidateAttribute
+//@   claims post inv-init inv-keep
+//@   loop 0 invariant strongestError == nil || isMsgErr(strongestError)
+//@   ensures result0 <==> result1 == nil
+//@   ensures result1 != nil ==> isMsgErr(result1)
+//@ func ValidateUpdateMsg
+//@   requires m != nil
+//@   claims at-return inv-init inv-keep
+//@   loop 0 invariant strongestError == nil || isMsgErr(strongestError)
+//@   at-return requires ret0 <==> ret1 == nil
+//@   at-return requires ret1 != nil ==> isMsgErr(ret1)
+//@   at-return requires (ret1 == nil || errClass(ret1) < ERROR_HANDLING_SESSION_RESET) && len(m.NLRI) > 0 ==> called(ValidateUpdateMsg$1)
+//@ props C05
 //@ func parseBody
 //@   requires h != nil && len(data) <= 65535
 //@   modifies nothing
@@ -485,9 +508,10 @@ package bgp
 //@   ensures result1 != nil && result1.(*MessageError).SubTypeCode == BGP_ERROR_SUB_UNACCEPTABLE_HOLD_TIME ==> m.HoldTime == 1 || m.HoldTime == 2
 //@   ensures result1 != nil && result1.(*MessageError).SubTypeCode == BGP_ERROR_SUB_BAD_PEER_AS ==> expectedAS != 0
 //@ props C07
+//@ spec isNotif(m *BGPMessage, code int, sub int) bool = m != nil && m.Header.Type == BGP_MSG_NOTIFICATION && typeOf(m.Body) == (*BGPNotification) && m.Body.(*BGPNotification) != nil && int(m.Body.(*BGPNotification).ErrorCode) == code && int(m.Body.(*BGPNotification).ErrorSubcode) == sub
 //@ func NewBGPNotificationMessage
 //@   modifies nothing
-//@   ensures result != nil && fresh(result)
+//@   ensures result != nil && fresh(result) && isNotif(result, int(errcode), int(errsubcode))
 
 // attribute constructors used by the policy actions: allocate, never write caller-visible memory
 //@ props C10
